@@ -58,6 +58,14 @@ func c04FeatGen(g *hx.Gen) {
 	// the witnesses of the design
 	g.Casef("bedl 3 %s", hx.Hex([]byte("chr1\t1\t10\nchr2\t5\t20\n")))
 	g.Casef("gffl %s", hx.Hex([]byte("##DNA x\n##acgt\n##end-DNA\n")))
+	// physical lines on the boundaries of bufio's buffer (each read in the four layouts)
+	for _, bf := range fioBoundaryFiles(g, g.Scale(1, 8)) {
+		if bf.bed {
+			g.Casef("bedl 4 %s", hx.Hex(bf.data))
+		} else {
+			g.Casef("gffl %s", hx.Hex(bf.data))
+		}
+	}
 	n := g.Scale(3000, 60000)
 	for k := 0; k < n && !g.Done(); k++ {
 		if g.Chance(0.4) {
